@@ -606,7 +606,7 @@ def main():
         run(chk, 20000, 20, 6)
     else:
         run(chk, 1200, 3, 5)
-        if chk.broken() and not chk.spec_failures:
+        if (chk.broken() or chk.anchor_changed) and not chk.spec_failures:
             chk.notes.append("escalated to a bigger budget after a broken proof/correspondence")
             run(chk, 2500, 4, 5)
     chk.finish()
